@@ -14,6 +14,11 @@ CHECK = {
         "obb_inside_dyadic_axis_rotation", "obb_inside_generic",
         "obb_face_point", "obb_edge_point", "obb_corner_point", "obb_zero_extent", "obb_to_aabb",
         "tiny_length_boxes", "aabb_inside_tiny_lengths", "obb_inside_tiny_lengths", "tiny_zero_extent", "tiny_centre_origin",
+        "huge_length_boxes", "aabb_inside_huge_lengths", "obb_inside_huge_lengths", "huge_centre_origin",
+        "obb_to_aabb_tiny_lengths", "obb_to_aabb_huge_lengths", "aabb_from_interval_tiny", "aabb_from_interval_huge",
+        "box_object_semantics", "preconditioner_object_semantics", "preconditioner_history_2p8", "interval_history_2p8",
+        "set_tiny_magnitudes", "set_huge_magnitudes", "set_integer_coordinates", "set_symmetric_pairs",
+        "container_four_components",
         "rotation_mode_0", "rotation_mode_1", "rotation_mode_2", "rotation_mode_3", "rotation_mode_4",
         "interval_union", "interval_dim1", "interval_dim2", "interval_dim3",
         "pointset_preconditioner", "set_all_negative", "set_all_positive", "set_fixed_mixed_octant",
@@ -27,6 +32,13 @@ CHECK = {
         "aabb.from_interval.exact", "aabb.from_interval.rel", "aabb.to_interval.exact", "aabb.inside.exact", "aabb.inside.generic",
         "obb.inside.exact", "obb.inside.generic",
         "aabb.inside.tiny.exact", "aabb.inside.tiny.generic", "obb.inside.tiny.exact", "obb.inside.tiny.generic",
+        "aabb.inside.huge.exact", "aabb.inside.huge.generic", "obb.inside.huge.exact", "obb.inside.huge.generic",
+        "semantics.box.getters_return_what_was_given", "semantics.box.first_observation",
+        "semantics.box.copies_behave_as_the_original", "semantics.box.default_constructed",
+        "semantics.box.aliased_arguments", "semantics.box.temporaries_give_the_same_answers", "semantics.box.results_stable",
+        "semantics.set.first_observation", "semantics.set.copies_behave_as_the_original",
+        "semantics.set.aliased_and_temporary_arguments", "semantics.set.long_history", "semantics.set.results_stable",
+        "container.repeatable_and_input_untouched",
         "obb2aabb.corners_enclosed", "obb2aabb.faces_touched", "obb2aabb.point_of_obb_inside",
         "interval.union_is_hull", "interval.inside_closed",
         "pointset.min_is_true_minimum", "pointset.max_is_true_maximum", "pointset.mean_vs_centroid",
@@ -35,20 +47,31 @@ CHECK = {
         "container.mean_of_matrices"],
     "required_counters": ["aabb_exact_on_boundary_checked", "obb_exact_on_boundary_checked",
                           "interval_inside_on_boundary_checked", "aabb_inside_via_interval_ctor",
-                          "preconditioner_recomputed_on_used_object", "tiny_exact_outside_checked"],
+                          "preconditioner_recomputed_on_used_object", "tiny_exact_outside_checked", "huge_exact_outside_checked",
+                          "interval_special_endpoint"],
     "rule": "case = one of {box built from an interval; axis-aligned containment on a dyadic grid (points on faces, edges, "
             "corners, zero extents, one-ulp neighbours of the faces) or with random operands and offsets of 0.5..1e5 ulps from a "
             "face; oriented containment with exact signed-permutation rotations on the grid or with random / multiple-of-45-deg / "
             "tiny-angle rotations; axis-aligned and oriented containment for boxes with tiny lengths (half extents 0, the smallest "
             "denormal, around the smallest normal, or log-uniform 1e-300..1e-3 (double) / 1e-44..1e-3 (float); centre at the "
             "origin, equally tiny, or ordinary; query points displaced from the faces by offsets of the same tiny scales, either "
-            "side; verdict exact whenever every operand is representable, e.g. centre at the origin); enclosing axis-aligned box of an oriented box; union of 2..5 intervals in 1D/2D/3D sharing end "
+            "side; verdict exact whenever every operand is representable, e.g. centre at the origin) and with huge lengths (the same "
+            "construction with lengths log-uniform 1e3..max/32, max/32 being the magnitude up to which every sum in the unchanged "
+            "containment / enclosing-box code stays finite); object semantics of boxes, intervals and the preconditioner (results "
+            "bound by const reference re-compared at the end, copy/move construction and assignment, self-assignment, source "
+            "overwritten or destroyed, default-constructed objects, arguments aliasing the object's own getters, temporaries, "
+            "sibling objects at work in between, 2^8+k and 2^16+k repetitions of Interval::include and of compute() on one "
+            "object); magnitudes at the ends of the floating range also for the enclosing box (tiny / up to max/32), for boxes "
+            "built from intervals (ends down to the denormals / up to max/2, beyond which upper+lower overflows) and for point "
+            "sets (coordinates down to 8 denorm_min / up to max/4096, the limit for the sum of 1000 coordinates and the "
+            "reciprocal of the side to stay finite), integer coordinates, +-pairs, interval end points 0, -0, +-denorm_min, "
+            "+-min, +-max; enclosing axis-aligned box of an oriented box; union of 2..5 intervals in 1D/2D/3D sharing end "
             "points, with closed-containment queries on and one ulp off the hull; PointSetPreconditioner over the eight point types, "
             "fresh or re-used object, 1..1000 points all-negative / all-positive / fixed mixed octant / straddling / with exact "
             "zeros, clustered far from the origin, identical points, one constant coordinate; min/max/mean of vector/deque/list "
             "of Eigen arrays and mean of Eigen matrices}, float and double, 2D and 3D; non-trivial = everything except double 2D "
             "axis-aligned containment of a point well away from every face (what the unit test samples)",
-    "level_text": "exploration: the real bounding-box, interval, container and preconditioner code is executed on 2e5 (quick) / "
+    "level_text": "exploration: the real bounding-box, interval, container and preconditioner code is executed on 1e6 (quick) / "
                   "5e7 (thorough) generated cases; each answer is compared with the definition evaluated in long double on the "
                   "same operands (brute force over corners / exhaustive scan of the set); containment verdicts are required "
                   "exactly where every intermediate is representable and outside a few-ulp ambiguity band otherwise (skips "
@@ -60,10 +83,13 @@ CHECK = {
                     "rotations are proper (det +1) and orthogonal to within the rounding of their entries",
                     "homogeneous points are generated with w == 1 (the unit last coordinate they carry everywhere in the library); "
                     "the extrema/mean are compared on all stored components, sets with w != 1 are outside the workload",
-                    "magnitudes stay within 1e-3..1e6 so that no overflow/underflow enters the extents, except in the tiny-length "
-                    "containment class, whose lengths go down to the denormals (the ambiguity band there includes the absolute "
+                    "magnitudes stay within 1e-3..1e6 so that no overflow/underflow enters the extents, except in the tiny/huge-length "
+                    "classes, whose lengths go down to the denormals and up to the stated limits (the ambiguity band there includes the absolute "
                     "error of underflowing products)",
-                    "a zero-size point set (largest side 0) is not asked for a scale (infinite accepted, counted)",
+                    "a zero-size point set (largest side 0) is not asked for a scale (infinite accepted, counted); nor is a set whose "
+                    "largest side lies outside [4/max, max/4], where the reciprocal is not a normal number of the scalar type",
+                    "getTranslation() is exercised (stability, copies) but its value is not part of the statement",
+                    "point sets beyond 1000 points and integer-valued Interval<int> are outside the statement's quantifier",
                     "long double (x87 80-bit) evaluation of the definitions is the reference",
                     "g++ 12 ASan+UBSan runtime; asserts live (no -DNDEBUG)"],
 }
